@@ -2134,6 +2134,21 @@ impl<'a, R: FileManager> FrontendCtx<'a, R> {
             }
             return Ok(Runtype::ref_(rt_uuid));
         }
+        // a generic that instantiates itself with ever larger arguments (type W<T> = { next: W<T[]> })
+        // would be expanded without end: stop once many instances of it are being defined at once
+        if !type_args.is_empty() {
+            let in_progress = self
+                .partial_validators
+                .iter()
+                .filter(|(name, def)| def.is_none() && name.ty == fat)
+                .count();
+            if in_progress >= 32 {
+                return self.error(
+                    anchor,
+                    DiagnosticInfoMessage::CannotHaveRecursiveGenericTypes,
+                );
+            }
+        }
         self.partial_validators.insert(rt_uuid.clone(), None);
 
         let ty = self.extract_addressed_type(&fat, type_args, anchor);
